@@ -6,7 +6,7 @@
    floor).  The harness runs the bit-exact IEEE binary64 instance `fops` against the real C code. *)
 From Coq Require Import List ZArith Lia.
 Import ListNotations.
-From V Require Import Base.U32 Gen.RsConsts C09.Model C09.Proofs C09.Fb13.
+From V Require Import Base.U32 Gen.RsConsts C09.Model C09.Proofs C09.Fb13 C09.FloatFacts C09.FloatInst.
 Local Open Scope Z_scope.
 
 (* Range.  For every configuration in which a roller shutter has no tilting time, from every state whose position is
@@ -131,6 +131,78 @@ Theorem C09_accounting_fb13 : forall o, fp_ok o -> forall c boot up tau s ds,
   (0 < remaining up (tilt s') \/ 0 < remaining up (pos s') -> 10000 * carry_of up s' < Z.max Tt Tp + 10000 + 10000 * tau).
 Proof. exact C09_accounting_fb13_thm. Qed.
 Print Assumptions C09_accounting_fb13.
+
+(* ---------- the same theorems for the bit-exact IEEE binary64 instance `fops`, without the hypothesis fp_ok ---------- *)
+(* FP0..FP3 hold for `fops` (C09/FloatFacts.v, Flocq: Prim2B bridge, Bmult_correct, Bdiv_correct, binary_normalize_correct) *)
+Theorem C09_fp_facts : fp_ok fops.
+Proof. exact fops_ok. Qed.
+Print Assumptions C09_fp_facts.
+Theorem C09_range_fops : forall c boot s evs,
+  wf_cfg c -> Forall ev_ok evs -> range_ok s ->
+  let s' := run fops c boot s evs in
+  range_ok s' /\ rep_ok (current_position (pos s')) /\ rep_ok (current_tilt c (tilt s')).
+Proof. exact C09_range_inst. Qed.
+Print Assumptions C09_range_fops.
+
+Theorem C09_direction_fops : forall c boot s dt up,
+  wf_cfg c -> range_ok s -> dir s = dir_of up -> known (pos s) = true ->
+  let s' := timer_cb fops c boot s dt in
+  known (pos s') = true /\ 0 <= remaining up (pos s') <= remaining up (pos s) /\
+  (tilt_supported c = true -> known (tilt s) = true -> fixed_tilt_consistent c s ->
+   known (tilt s') = true /\ 0 <= remaining up (tilt s') <= remaining up (tilt s)).
+Proof. exact C09_direction_inst. Qed.
+Print Assumptions C09_direction_fops.
+
+Theorem C09_accounting_rs_fops : forall c boot up s ds,
+  rs_cfg c -> 20000 <= full_of c up * 1000 < 4294967296 ->
+  synced boot s -> known (pos s) = true -> 0 <= carry_of up s ->
+  Forall (fun d => 0 <= d) ds -> carry_of up s + sumz ds < 4294967296 ->
+  motor_on fops c boot up s ds ->
+  let T := full_of c up * 1000 in
+  let s' := run_cbs fops c boot s ds in
+  let e := carry_of up s + sumz ds in
+  let n := Z.of_nat (length ds) in
+  let moved := remaining up (pos s) - remaining up (pos s') in
+  known (pos s') = true /\ 0 <= remaining up (pos s') /\ 0 <= moved /\
+  0 <= carry_of up s' <= e /\
+  10000 * (e - carry_of up s') <= moved * T <= 10000 * (e - carry_of up s') + 20000 * n /\
+  (0 < n -> 0 < remaining up (pos s') -> 10000 * carry_of up s' < T + 10000).
+Proof. exact C09_accounting_rs_inst. Qed.
+Print Assumptions C09_accounting_rs_fops.
+
+Theorem C09_end_to_end_rs_fops : forall c boot up s ds t_true,
+  rs_cfg c -> 20000 <= full_of c up * 1000 < 4294967296 ->
+  synced boot s -> known (pos s) = true -> carry_of up s = 0 ->
+  Forall (fun d => 1000 <= d) ds -> sumz ds < 4294967296 -> sumz ds <= 4 * (full_of c up * 1000) ->
+  motor_on fops c boot up s ds ->
+  0 <= t_true -> sumz ds - 30000 <= t_true <= sumz ds + 30000 ->
+  let T := full_of c up * 1000 in
+  let moved := remaining up (pos s) - remaining up (pos (run_cbs fops c boot s ds)) in
+  let ideal := Z.min (remaining up (pos s)) (10000 * t_true / T) in
+  ideal - (100 + (10000 * 30000 / T + 1)) <= moved <= ideal + (100 + (10000 * 30000 / T + 1)).
+Proof. exact C09_end_to_end_rs_inst. Qed.
+Print Assumptions C09_end_to_end_rs_fops.
+
+Theorem C09_accounting_fb13_fops : forall c boot up tau s ds,
+  keeps_position c = true -> tilt_supported c = true ->
+  let Tt := tilt_ms c * 1000 in let Tp := full_of c up * 1000 - Tt in
+  20000 <= Tt -> 20000 <= Tp -> full_of c up * 1000 < 4294967296 -> 0 <= tau ->
+  synced boot s -> known (pos s) = true -> known (tilt s) = true -> consistent3 c (pos s) (tilt s) ->
+  0 <= carry_of up s -> 10000 * carry_of up s < Z.max Tt Tp + 10000 ->
+  Forall (fun d => 0 <= d <= tau /\ Tt <= 10000 * d) ds -> carry_of up s + sumz ds < 4294967296 ->
+  motor_on fops c boot up s ds ->
+  let s' := run_cbs fops c boot s ds in
+  let e := carry_of up s + sumz ds in
+  let n := Z.of_nat (length ds) in
+  let mt := remaining up (tilt s) - remaining up (tilt s') in
+  let mp := remaining up (pos s) - remaining up (pos s') in
+  known (pos s') = true /\ known (tilt s') = true /\ consistent3 c (pos s') (tilt s') /\
+  0 <= mt /\ 0 <= mp /\ 0 <= remaining up (tilt s') /\ 0 <= remaining up (pos s') /\ 0 <= carry_of up s' <= e /\
+  10000 * (e - carry_of up s') <= mt * Tt + mp * Tp <= 10000 * (e - carry_of up s') + 20000 * n /\
+  (if tilt_second c up then 0 < mt -> remaining up (pos s') = 0 else 0 < mp -> remaining up (tilt s') = 0) /\
+  (0 < remaining up (tilt s') \/ 0 < remaining up (pos s') -> 10000 * carry_of up s' < Z.max Tt Tp + 10000 + 10000 * tau).
+Proof. exact C09_accounting_fb13_inst. Qed.
+Print Assumptions C09_accounting_fb13_fops.
 
 (* ---------- the hypotheses are satisfiable ---------- *)
 (* exact integer arithmetic is one instance of the floating-point facts *)
